@@ -86,8 +86,8 @@ func genTimeout(t *rapid.T, tickS, buckets int, multiplesOnly bool) int {
 
 func genTW(t *rapid.T) twCase {
 	var c twCase
-	switch rapid.IntRange(0, 19).Draw(t, "cfg") {
-	case 0: // production configuration (proxy/server/server.go)
+	switch rapid.IntRange(0, 39).Draw(t, "cfg") {
+	case 17, 23: // production configuration (proxy/server/server.go)
 		c.TickS, c.Buckets = 5, 3600
 	case 1:
 		c.TickS, c.Buckets = rapid.SampledFrom([]int{1, 5}).Draw(t, "tick"), 1
@@ -99,7 +99,7 @@ func genTW(t *rapid.T) twCase {
 	multiplesOnly := rapid.IntRange(0, 2).Draw(t, "multiples_only") == 0
 	n := rapid.IntRange(1, 60).Draw(t, "nops")
 	if c.Buckets > 100 {
-		n = rapid.IntRange(1, 12).Draw(t, "nops_big")
+		n = rapid.IntRange(1, 8).Draw(t, "nops_big")
 	}
 	for i := 0; i < n; i++ {
 		var op twOp
@@ -207,8 +207,8 @@ func checkTW(c twCase) (o pbt.Outcome) {
 		got := append([]fired(nil), run.fires[before:]...)
 		run.mu.Unlock()
 		if len(got) == 0 {
-			for _, r := range cur {
-				if r.live && r.due == now {
+			for k := 0; k < c.Keys; k++ {
+				if r := cur[k]; r != nil && r.live && r.due == now {
 					fail("tick %d: session %s not closed; its last activity (timeout %ds) was recorded after tick %d, so the close is due at this tick", now, keyName(r.key), r.timeoutS, r.recTick)
 				}
 			}
@@ -372,6 +372,6 @@ func checkTW(c twCase) (o pbt.Outcome) {
 
 func TestC37Wheel(t *testing.T) {
 	pbt.Run(t, pbt.Spec{ID: "C37", Sub: "wheel", Quick: 10000, Thorough: 100000,
-		Rule: "wheel with tick 1/2/3/5 s and 1-8 buckets (5% the production 5 s x 3600); 1-5 sessions; up to 60 operations: add/refresh with whole-second timeouts below, equal to, next to and 2-4 multiples of the span (a quarter of the adds in two thirds of the cases are not multiples of the tick), remove, runs of ticks, advance to (just before) the earliest due tick; then ticks past every registration's due tick. non-trivial = a close was observed after one or more full rounds of the wheel, or a close on time in a history that also refreshed or removed a pending registration",
+		Rule:  "wheel with tick 1/2/3/5 s and 1-8 buckets (5% the production 5 s x 3600); 1-5 sessions; up to 60 operations: add/refresh with whole-second timeouts below, equal to, next to and 2-4 multiples of the span (a quarter of the adds in two thirds of the cases are not multiples of the tick), remove, runs of ticks, advance to (just before) the earliest due tick; then ticks past every registration's due tick. non-trivial = a close was observed after one or more full rounds of the wheel, or a close on time in a history that also refreshed or removed a pending registration",
 		Floor: 0.4}, genTW, checkTW)
 }
